@@ -11,6 +11,7 @@ import (
 	"net"
 	"os"
 	"strings"
+	"sync"
 	"syscall"
 	"unicode/utf8"
 
@@ -131,6 +132,8 @@ type SimReader struct {
 	stdSlice     []byte        // Std == "bytes.Reader": the caller's slice under the reader
 	Reused       bool          // the caller reused the reader's storage after the parse
 	FileFallback bool          // no temp file could be created; a bytes.Reader stood in
+
+	commSet bool // Std == "procfs-comm": the process name holds the document until reuse()
 
 	growW  *os.File // Std == "os.File-grown": the handle the content arrives through after construction
 	onRead func()   // called at the start of every Read (a reader that re-enters the library)
@@ -333,6 +336,22 @@ func (r *SimReader) asReader() io.Reader {
 		r.FileFallback = true
 		r.pos = r.limit
 		return bytes.NewReader(append([]byte(nil), r.doc[:r.limit]...))
+	case "procfs-comm":
+		// a REGULAR file whose Stat size is 0 although reads deliver content
+		// (every procfs file): /proc/self/comm holds the process name the
+		// harness has just set to the document (<= 15 bytes + LF).  The content
+		// is fixed before NewBlockParser sees the file and stays until the
+		// parse is over, so it is "an input" whenever it is read - a size taken
+		// from Stat is a hint, never the end of the stream.
+		if f := openComm(r.doc[:r.limit]); f != nil {
+			r.pos = r.limit
+			r.stdFile = f
+			r.commSet = true
+			return f
+		}
+		r.FileFallback = true
+		r.pos = r.limit
+		return bytes.NewReader(append([]byte(nil), r.doc[:r.limit]...))
 	case "os.File-grown":
 		// a regular file that is still EMPTY when NewBlockParser is handed it
 		// and gets its content (through another handle) before the first
@@ -418,6 +437,10 @@ func (r *SimReader) afterConstruct() {
 
 // reuse: the parse is over; the caller does what it likes with what it owns.
 func (r *SimReader) reuse() {
+	if r.commSet {
+		restoreComm()
+		r.commSet = false
+	}
 	switch {
 	case r.stdFile != nil:
 		r.stdFile.Close()
@@ -643,4 +666,61 @@ func genFaultPoint(r *Rng, doc []byte, deliveryPoints []int) int {
 		}
 	}
 	return r.Intn(len(doc) + 1)
+}
+
+// ---- /proc/self/comm as a reader value ------------------------------------
+
+var (
+	commMu    sync.Mutex
+	commBusy  bool
+	commSaved []byte
+)
+
+// openComm sets the process name to content (which must end in LF), checks
+// through a separate handle that the kernel now serves exactly content, and
+// returns /proc/self/comm opened for reading - or nil (no procfs, content the
+// kernel does not keep verbatim, another parse of this process is using it).
+func openComm(content []byte) *os.File {
+	n := len(content)
+	if n < 2 || n > 16 || content[n-1] != '\n' || bytes.IndexByte(content, 0) >= 0 {
+		return nil
+	}
+	commMu.Lock()
+	defer commMu.Unlock()
+	if commBusy {
+		return nil
+	}
+	old, err := os.ReadFile("/proc/self/comm")
+	if err != nil {
+		return nil
+	}
+	if err := os.WriteFile("/proc/self/comm", content[:n-1], 0); err != nil {
+		return nil
+	}
+	back, err := os.ReadFile("/proc/self/comm")
+	if err != nil || !bytes.Equal(back, content) {
+		os.WriteFile("/proc/self/comm", bytes.TrimSuffix(old, []byte("\n")), 0)
+		return nil
+	}
+	f, err := os.Open("/proc/self/comm")
+	if err != nil {
+		os.WriteFile("/proc/self/comm", bytes.TrimSuffix(old, []byte("\n")), 0)
+		return nil
+	}
+	if st, err := f.Stat(); err != nil || !st.Mode().IsRegular() || st.Size() != 0 {
+		f.Close()
+		os.WriteFile("/proc/self/comm", bytes.TrimSuffix(old, []byte("\n")), 0)
+		return nil
+	}
+	commBusy, commSaved = true, bytes.TrimSuffix(old, []byte("\n"))
+	return f
+}
+
+func restoreComm() {
+	commMu.Lock()
+	defer commMu.Unlock()
+	if commBusy {
+		os.WriteFile("/proc/self/comm", commSaved, 0)
+		commBusy = false
+	}
 }
